@@ -82,6 +82,7 @@ class Target:
         if layout == "trailing":
             blob = DPAPINGBlob.unpack(blob).pack(blob_in_envelope=False)
         self.blob = bytes(blob)
+        self.protect_args = None
         self.fields = field_ranges(self.blob)
         if self.unprotect(self.blob)[0] != "plain_ok":
             raise MachineryError("target blob does not decrypt with its own key material")
@@ -93,11 +94,12 @@ class Target:
         c.load_key(**self.load)
         return c
 
-    def unprotect(self, data: bytes, kdf_budget: int = 300, step_budget: t.Optional[int] = None, use_async: bool = False) -> tuple[str, str, int, int]:
+    def unprotect(self, data: bytes, kdf_budget: int = 300, step_budget: t.Optional[int] = None, use_async: bool = False,
+                  cache: t.Any = None) -> tuple[str, str, int, int]:
         """-> (outcome, exception class, kdf calls, line events)"""
         import dpapi_ng
 
-        cache = self.fresh_cache()
+        cache = cache if cache is not None else self.fresh_cache()
         meter = taps.StepMeter(SRC_PREFIX, step_budget) if step_budget else None
         steps = 0
         with NetworkTap(), taps.KdfTap(budget=kdf_budget, record=False) as tap:
